@@ -199,7 +199,7 @@ def prepare_base(root, bindir, name, src, main):
 FULL_RUN_PARS = ["imax=25"]   # spuriousSSM parameters of full design runs (positional arguments after the input name)
 
 
-def mk_cmd(tool, arg0, rng=None, des=False, just_files=True, struct=False, keep_temp=False, decoys=(), **opts):
+def mk_cmd(tool, arg0, rng=None, des=False, just_files=True, struct=False, keep_temp=False, decoys=(), dirs=(), **opts):
     opts = {k: v for k, v in opts.items() if v is not None}
     argv = [arg0]
     long = {"output": "--output", "save": "--save", "tempname": "--tempname", "design": "--design", "seqs": "--seqs",
@@ -227,7 +227,7 @@ def mk_cmd(tool, arg0, rng=None, des=False, just_files=True, struct=False, keep_
     if tool == "design" and not just_files:
         argv += FULL_RUN_PARS
     return {"tool": tool, "arg0": arg0, "opts": opts, "des": des, "just_files": just_files, "struct": struct, "argv": argv,
-            "keep_temp": keep_temp, "decoys": list(decoys)}
+            "keep_temp": keep_temp, "decoys": list(decoys), "dirs": list(dirs)}
 
 
 def strip_ext(name, exts):
@@ -398,6 +398,10 @@ def footprint_cases(rng, sysd):
         ("ok", mk_cmd("design", b, rng, struct=True, tempname="t" + u + ".st", output="m" + u + ".mfe")),
         ("ok", mk_cmd("design", "Raw" + b, rng)),
         ("usage", mk_cmd("design", "Nope" + u, rng, tempname="tn")),
+        # a temp name / output name that is also the name of an existing DIRECTORY of the working directory (a folder of an earlier
+        # run): the scratch files are still <tempname>.st ..., beside the folder, not inside it
+        ("ok", mk_cmd("design", b, rng, tempname="run" + u, dirs=["run" + u, "run%s.d" % u], decoys=["run%s/%s.st" % (u, b), "run%s/keep.txt" % u])),
+        ("ok", mk_cmd("compile", main, rng, output="dir%s.pil" % u, save="dir%s.save" % u, dirs=["dir" + u])),
         # full design runs (designer started, .mfe written, scratch files cleaned up or kept); beside them lie the scratch
         # files of OTHER runs whose temp names extend / are extended by this run's temp name
         ("ok", mk_cmd("design", b, rng, just_files=False, tempname="f" + u,
@@ -417,6 +421,8 @@ def footprint_cases(rng, sysd):
 def run_footprint_case(root, bindir, sysd, idx, expect, cmd):
     wd = os.path.join(root, "fp_%s_%d" % (sysd["name"], idx))
     shutil.copytree(sysd["base"], wd)
+    for d in cmd.get("dirs", ()):
+        os.makedirs(os.path.join(wd, d), exist_ok=True)
     for d in cmd.get("decoys", ()):
         with open(os.path.join(wd, d), "w") as f:
             f.write("scratch file of another run\n")
